@@ -704,6 +704,18 @@ def gt_formula(ctx: Ctx) -> RuleResult:
                     ok_shape = True
                     r.ob(True, {"formula": norm_src(n), "own priorities": table_of(own[0].value), "closure": norm_src(it)})
     if not ok_shape:
+        # (d) recognised defect: the sum ranges over an enumeration of EDGES (a node reachable through k edges is counted k times)
+        per_edge = ("edge_bfs", "edge_dfs", "out_edges", "edges", "all_simple_paths", "all_simple_edge_paths")
+        for n, tbl, key in writes:
+            for c_ in ast.walk(n.value) if isinstance(n, (ast.Assign, ast.AugAssign)) else []:
+                if isinstance(c_, (ast.GeneratorExp, ast.ListComp)):
+                    it = c_.generators[0].iter
+                    if isinstance(it, ast.Call) and (dotted(it.func) or "").split(".")[-1] in per_edge:
+                        r.ob(False, {"summed over": norm_src(it)})
+                        r.violate("DiGraphEx.assign_compound_priority: the priorities are summed over an enumeration of edges", f.loc(n),
+                                  f"{norm_src(it.func)} yields one item per reachable edge: a descendant with several incoming edges (a "
+                                  "diamond, a node that is child and grand-child) is counted once per edge, not once", norm_src(n)[:140])
+                        return r
         raise Undecided("assign_compound_priority: neither a recognised defect pattern nor the accepted shape "
                         "'T[n] = OWN[n] + sum(OWN[d] for d in descendants(n))'")
     # the snapshot holds own priorities: built before any write
@@ -825,6 +837,30 @@ def gt_staleexec(ctx: Ctx) -> RuleResult:
                   "dag.config_from_dict(...) after dag.executor(...) replaces the DAG's graph (new compound priorities) and nodes; the "
                   "executor then runs the new nodes (their new is_sequential, the new max_concurrency) in the order of the OLD compound "
                   "priorities", sorted({f"{u[0].short} -> {u[3].short}" for u in uses}))
+    return r
+
+
+def gt_gateexact(ctx: Ctx) -> RuleResult:
+    """The debug gate returns the graph induced by exactly the nodes it computed: the selection (plus / minus debug nodes).
+
+    The gate is the last step before the scheduler for every executor. Deriving its result with a closure-adding helper
+    (`minimal_induced_subgraph` adds every ancestor of the listed nodes) silently widens a selection that is not ancestor-closed -
+    a `root_nodes` executor then also runs the other ancestors of the root's dependents, setup nodes included."""
+    r = RuleResult("GT-GATEEXACT")
+    g = ctx.P.classes[graph_q(ctx)]
+    gate = g.methods.get("extend_graph_with_debug_nodes")
+    r.require(gate is not None, "debug gate not found")
+    widening = ("minimal_induced_subgraph", "ancestors", "ancestors_of_iter", "descendants", "multiple_nodes_successors", "dfs_tree", "bfs_tree")
+    derived = [n for n in iter_own_nodes(gate.node) if isinstance(n, ast.Call) and isinstance(n.func, ast.Attribute)
+               and n.func.attr in ("subgraph", "induced_subgraph") + widening]
+    r.require(len(derived) >= 1, "gate: derivation of the returned graph not found")
+    for c in derived:
+        ok = c.func.attr in ("subgraph", "induced_subgraph")
+        r.ob(ok, {"gate derives its result with": norm_src(c.func), "argument": norm_src(c.args[0]) if c.args else None})
+        if not ok:
+            r.violate(f"DiGraphEx.extend_graph_with_debug_nodes: the result is derived with {c.func.attr}, which adds nodes to the selection",
+                      gate.loc(c), "executor(root_nodes=[r]) must run r and what depends on r; the other ancestors of those dependents "
+                      "(setup nodes among them) are outside the selection and now run as well", norm_src(c))
     return r
 
 
@@ -1034,9 +1070,16 @@ def gt_select(ctx: Ctx) -> RuleResult:
     if not okcl:
         backwards = [c for c in clos if c[0] in ("ancestors", "ancestors_of_iter", "predecessors", "minimal_induced_subgraph")]
         wrong_arg = [c for c in clos if c[0] == "multiple_nodes_successors" and c[1] != role["root"]]
+        trees = [n_ for st_ in rs.body for n_ in ast.walk(st_) if isinstance(n_, ast.Call)
+                 and (dotted(n_.func) or "").split(".")[-1] in ("dfs_tree", "bfs_tree", "dfs_edges", "bfs_edges", "dfs_successors", "bfs_successors")]
         if backwards or wrong_arg:
             r.violate("DiGraphEx.make_subgraph: roots step does not keep 'roots and everything depending on them'", f.loc(rs),
                       f"closure used: {clos}", clos)
+        elif trees:
+            r.violate("DiGraphEx.make_subgraph: the roots step rebuilds the graph from search trees", f.loc(trees[0]),
+                      "a search tree keeps the nodes reachable from the root but only the tree edges: the second parent of a join is "
+                      "lost, so the exclusion and target steps that follow compute descendants / ancestors on the wrong edges "
+                      "(a target loses an ancestor and runs with None, an excluded node's dependents still run)", norm_src(trees[0]))
         else:
             raise Undecided("make_subgraph: roots closure not recognised")
     # --- exclude: remove the descendants closure (including the excluded nodes), as one set
@@ -1831,6 +1874,7 @@ RULES = {
     "GT-REFALIAS": gt_refalias, "GT-ROOTCONST": gt_rootconst,
     "GT-STALEEXEC": gt_staleexec,
     "GT-STALEGATE": gt_stalegate,
+    "GT-GATEEXACT": gt_gateexact,
     "GT-NORECURSE": gt_norecurse,
     "GT-DEFAULTSEL": gt_defaultsel,
     "GT-MODEL": gt_model, "GT-CARRY": gt_carry, "GT-PRIO-SINK": gt_prio_sink, "GT-POP": gt_pop, "GT-FORMULA": gt_formula,
